@@ -130,7 +130,8 @@ func parseProperType(data []byte, v reflect.Value) bool {
 	if !v.CanSet() {
 		return false
 	}
-	s := goutil.BytesToString(data)
+	// copy: the decoded value must not alias the (usually pooled) input buffer
+	s := string(data)
 	switch v.Kind() {
 	case reflect.String:
 		v.SetString(s)
@@ -162,7 +163,9 @@ func parseProperType(data []byte, v reflect.Value) bool {
 		if v.Type().Elem().Kind() != reflect.Uint8 {
 			return false
 		}
-		v.SetBytes(data)
+		b := make([]byte, len(data))
+		copy(b, data)
+		v.SetBytes(b)
 	case reflect.Invalid:
 		return true
 	default:
